@@ -244,10 +244,11 @@ func runC12(t failer, c c12Case) {
 		if !ok {
 			fail("reply-undecodable", "request %d: reply is not an accounting REPLY", i)
 		}
-		_, decOK, exact := model.DecodeAcctRequest(body)
-		decodable := decOK && exact && r.Trim == 0
-		contradictory := r.Req.Flags&0x04 != 0 && r.Req.Flags&0x08 != 0
-		known := c.hasFileAccounter(string(r.Req.User))
+		// judged on the bytes actually sent (a cut that is as long as the body leaves it whole)
+		sent, decOK, exact := model.DecodeAcctRequest(body)
+		decodable := decOK && exact
+		contradictory := sent.Flags&0x04 != 0 && sent.Flags&0x08 != 0
+		known := c.hasFileAccounter(string(sent.User))
 		switch {
 		case !decodable:
 			ev.Class("req:undecodable")
@@ -259,7 +260,7 @@ func runC12(t failer, c c12Case) {
 			ev.Class("req:accountable")
 		}
 		if (!decodable || contradictory || !known) && rep.Status != 2 {
-			fail("not-answered-error", "request %d (decodable=%v stop+watchdog=%v user %q has accounter=%v) answered status %d, must be ERROR", i, decodable, contradictory, r.Req.User, known, rep.Status)
+			fail("not-answered-error", "request %d (decodable=%v stop+watchdog=%v user %q has accounter=%v) answered status %d, must be ERROR", i, decodable, contradictory, sent.User, known, rep.Status)
 		}
 		if rep.Status != 1 {
 			ev.Class("reply:ERROR")
@@ -274,8 +275,8 @@ func runC12(t failer, c c12Case) {
 			fail("record-after-reply", "request %d: the record was handed to the sink after the reply was written", i)
 		}
 		rec := parseRecord(lines[0].Text)
-		if !rec.equals(r.Req) {
-			fail("record-differs", "request %d: the sink line does not decode to the request\n line=%q\n req =%s", i, lines[0].Text, js(r.Req))
+		if !rec.equals(sent) {
+			fail("record-differs", "request %d: the sink line does not decode to the request\n line=%q\n req =%s", i, lines[0].Text, js(sent))
 		}
 	}
 }
